@@ -1,10 +1,13 @@
 import OW.Proofs.HotStart
+import OW.Proofs.HotStartZip
 import OW.Kernels.Registry
 /-!
 C06 — hot-start continuity: a split run reproduces the uninterrupted run.
 For each stateful kernel model `M`: `HotStart M.model` (exact; over any `Num α`, hence also for the `Float`
 instance the code is compared with): nothing that influences future outputs is outside the state row.
 -/
+set_option linter.unusedSimpArgs false
+set_option linter.unusedVariables false
 namespace OW.Props.C06
 open OW OW.Kernels
 
@@ -33,5 +36,271 @@ theorem hotstart_Muskingum : HotStart (Muskingum.model (α := α)) := by
 
 /-- non-vacuity: the hypotheses are met by a two-step and a one-step part -/
 example : ∃ o, (Muskingum.model (α := Float)).run [86400, 0.25, 86400] [[1, 2], [0, 1]] [0, 0, 0] = .ok o := ⟨_, rfl⟩
+
+/-- LumpedConstituentRouting: the stored mass is the whole loop state. -/
+theorem hotstart_LumpedConstituentRouting : HotStart (LumpedConstituent.model (α := α)) := by
+  intro p a b st n₁ n₂ o₁ o₂ hl ha hb h₁ h₂
+  unfold LumpedConstituent.model at h₁ h₂ ⊢
+  simp only at h₁ h₂ ⊢
+  match p, a, st, h₁ with
+  | [_x, pi, dt], [a1, a2, a3, a4], [sm], h₁ =>
+    simp only [Except.ok.injEq] at h₁
+    subst h₁
+    match b, hl, h₂ with
+    | [b1, b2, b3, b4], _, h₂ =>
+      simp only [Except.ok.injEq] at h₂
+      subst h₂
+      have e1 : a1.length = a2.length := ha.eq (by simp) (by simp)
+      have e2 : a1.length = a3.length := ha.eq (by simp) (by simp)
+      have e3 : a1.length = a4.length := ha.eq (by simp) (by simp)
+      refine ⟨_, rfl, ?_, ?_⟩ <;>
+        simp only [catSeries, List.zipWith_cons_cons, List.zipWith_nil_right, LumpedConstituent.run,
+          zip4_append _ _ _ _ _ _ _ _ e1 e2 e3, map_append_scan, scan_append_fst]
+
+/-- ConstituentDecay: the stored mass is the whole loop state. -/
+theorem hotstart_ConstituentDecay : HotStart (ConstituentDecay.model (α := α)) := by
+  intro p a b st n₁ n₂ o₁ o₂ hl ha hb h₁ h₂
+  unfold ConstituentDecay.model at h₁ h₂ ⊢
+  simp only at h₁ h₂ ⊢
+  match p, a, st, h₁ with
+  | [_x, hlf, dt], [a1, a2, a3, a4, a5], [sm], h₁ =>
+    simp only [Except.ok.injEq] at h₁
+    subst h₁
+    match b, hl, h₂ with
+    | [b1, b2, b3, b4, b5], _, h₂ =>
+      simp only [Except.ok.injEq] at h₂
+      subst h₂
+      have e1 : a1.length = a2.length := ha.eq (by simp) (by simp)
+      have e2 : a1.length = a3.length := ha.eq (by simp) (by simp)
+      have e3 : a1.length = a4.length := ha.eq (by simp) (by simp)
+      have e4 : a1.length = a5.length := ha.eq (by simp) (by simp)
+      refine ⟨_, rfl, ?_, ?_⟩ <;>
+        simp only [catSeries, List.zipWith_cons_cons, List.zipWith_nil_right, ConstituentDecay.run,
+          zip5_append _ _ _ _ _ _ _ _ _ _ e1 e2 e3 e4, map_append_scan, scan_append_fst]
+
+/-- StorageDissolvedDecay (both the decay-disabled and the decay-enabled branch): the stored mass is the whole loop state. -/
+theorem hotstart_StorageDissolvedDecay : HotStart (StorageDissolvedDecay.model (α := α)) := by
+  intro p a b st n₁ n₂ o₁ o₂ hl ha hb h₁ h₂
+  unfold StorageDissolvedDecay.model at h₁ h₂ ⊢
+  simp only at h₁ h₂ ⊢
+  match p, a, st, h₁ with
+  | [dt, dsd, _ari, bff, mfrt], [a1, a2, a3, a4], [sm], h₁ =>
+    simp only [Except.ok.injEq] at h₁
+    subst h₁
+    match b, hl, h₂ with
+    | [b1, b2, b3, b4], _, h₂ =>
+      simp only [Except.ok.injEq] at h₂
+      subst h₂
+      have e1 : a1.length = a2.length := ha.eq (by simp) (by simp)
+      have e2 : a1.length = a3.length := ha.eq (by simp) (by simp)
+      have e3 : a1.length = a4.length := ha.eq (by simp) (by simp)
+      refine ⟨_, rfl, ?_, ?_⟩ <;>
+        simp only [catSeries, List.zipWith_cons_cons, List.zipWith_nil_right, StorageDissolvedDecay.run,
+          zip4_append _ _ _ _ _ _ _ _ e1 e2 e3, map_append_scan, scan_append_fst]
+
+/-- StorageParticulateTrapping: the stored mass is the whole loop state. -/
+theorem hotstart_StorageParticulateTrapping : HotStart (StorageParticulateTrapping.model (α := α)) := by
+  intro p a b st n₁ n₂ o₁ o₂ hl ha hb h₁ h₂
+  unfold StorageParticulateTrapping.model at h₁ h₂ ⊢
+  simp only at h₁ h₂ ⊢
+  match p, a, st, h₁ with
+  | [dt, cap, len, sub, mul, ldf, ldp], [a1, a2, a3, a4], [sm], h₁ =>
+    simp only [Except.ok.injEq] at h₁
+    subst h₁
+    match b, hl, h₂ with
+    | [b1, b2, b3, b4], _, h₂ =>
+      simp only [Except.ok.injEq] at h₂
+      subst h₂
+      have e1 : a1.length = a2.length := ha.eq (by simp) (by simp)
+      have e2 : a1.length = a3.length := ha.eq (by simp) (by simp)
+      have e3 : a1.length = a4.length := ha.eq (by simp) (by simp)
+      refine ⟨_, rfl, ?_, ?_⟩ <;>
+        simp only [catSeries, List.zipWith_cons_cons, List.zipWith_nil_right, StorageParticulateTrapping.run,
+          zip4_append _ _ _ _ _ _ _ _ e1 e2 e3, map_append_scan, scan_append_fst]
+
+/-- InstreamCoarseSediment: (channel store, stored mass) is the whole loop state. -/
+theorem hotstart_InstreamCoarseSediment : HotStart (InstreamCoarseSediment.model (α := α)) := by
+  intro p a b st n₁ n₂ o₁ o₂ hl ha hb h₁ h₂
+  unfold InstreamCoarseSediment.model at h₁ h₂ ⊢
+  simp only at h₁ h₂ ⊢
+  match p, a, st, h₁ with
+  | [dt], [a1, a2, a3], [cs, sm], h₁ =>
+    simp only [Except.ok.injEq] at h₁
+    subst h₁
+    match b, hl, h₂ with
+    | [b1, b2, b3], _, h₂ =>
+      simp only [Except.ok.injEq] at h₂
+      subst h₂
+      have e1 : a1.length = a2.length := ha.eq (by simp) (by simp)
+      have e2 : a1.length = a3.length := ha.eq (by simp) (by simp)
+      refine ⟨_, rfl, ?_, ?_⟩ <;>
+        simp only [catSeries, List.zipWith_cons_cons, List.zipWith_nil_right, InstreamCoarseSediment.run,
+          zip3_append _ _ _ _ _ _ e1 e2, map_append_scan, scan_append_fst]
+
+/-- InstreamParticulateNutrient: (instream stored mass, channel stored mass) is the whole loop state. -/
+theorem hotstart_InstreamParticulateNutrient : HotStart (InstreamParticulateNutrient.model (α := α)) := by
+  intro p a b st n₁ n₂ o₁ o₂ hl ha hb h₁ h₂
+  unfold InstreamParticulateNutrient.model at h₁ h₂ ⊢
+  simp only at h₁ h₂ ⊢
+  match p, a, st, h₁ with
+  | [pnc, spf, dt], [a1, a2, a3, a4, a5, a6, a7, a8], [ism, csm], h₁ =>
+    simp only [Except.ok.injEq] at h₁
+    subst h₁
+    match b, hl, h₂ with
+    | [b1, b2, b3, b4, b5, b6, b7, b8], _, h₂ =>
+      simp only [Except.ok.injEq] at h₂
+      subst h₂
+      have e1 : a1.length = a2.length := ha.eq (by simp) (by simp)
+      have e2 : a1.length = a3.length := ha.eq (by simp) (by simp)
+      have e3 : a1.length = a4.length := ha.eq (by simp) (by simp)
+      have e4 : a1.length = a5.length := ha.eq (by simp) (by simp)
+      have e5 : a1.length = a6.length := ha.eq (by simp) (by simp)
+      have e6 : a1.length = a7.length := ha.eq (by simp) (by simp)
+      have e7 : a1.length = a8.length := ha.eq (by simp) (by simp)
+      refine ⟨_, rfl, ?_, ?_⟩ <;>
+        simp only [catSeries, List.zipWith_cons_cons, List.zipWith_nil_right, InstreamParticulateNutrient.run,
+          zipIn_append _ _ _ _ _ _ _ _ _ _ _ _ _ _ _ _ e1 e2 e3 e4 e5 e6 e7, map_append_scan, scan_append_fst]
+
+/-- Simhyd: (soil moisture store, groundwater store, total store) is the whole loop state. -/
+theorem hotstart_Simhyd : HotStart (Simhyd.model (α := α)) := by
+  intro p a b st n₁ n₂ o₁ o₂ hl ha hb h₁ h₂
+  unfold Simhyd.model at h₁ h₂ ⊢
+  simp only at h₁ h₂ ⊢
+  match p, a, st, h₁ with
+  | [p1, p2, p3, p4, p5, p6, p7, p8, p9], [a1, a2], [s, gw, tot], h₁ =>
+    simp only [Except.ok.injEq] at h₁
+    subst h₁
+    match b, hl, h₂ with
+    | [b1, b2], _, h₂ =>
+      simp only [Except.ok.injEq] at h₂
+      subst h₂
+      have e1 : a1.length = a2.length := ha.eq (by simp) (by simp)
+      refine ⟨_, rfl, ?_, ?_⟩ <;>
+        simp only [catSeries, List.zipWith_cons_cons, List.zipWith_nil_right, Simhyd.run,
+          zip_append_eq _ _ _ _ e1, map_append_scan, scan_append_fst]
+
+/-- Surm: (soil moisture store, groundwater store, total store) is the whole loop state. -/
+theorem hotstart_Surm : HotStart (Surm.model (α := α)) := by
+  intro p a b st n₁ n₂ o₁ o₂ hl ha hb h₁ h₂
+  unfold Surm.model at h₁ h₂ ⊢
+  simp only at h₁ h₂ ⊢
+  match p, a, st, h₁ with
+  | [p1, p2, p3, p4, p5, p6, p7, p8, p9], [a1, a2], [s, gw, tot], h₁ =>
+    simp only [Except.ok.injEq] at h₁
+    subst h₁
+    match b, hl, h₂ with
+    | [b1, b2], _, h₂ =>
+      simp only [Except.ok.injEq] at h₂
+      subst h₂
+      have e1 : a1.length = a2.length := ha.eq (by simp) (by simp)
+      refine ⟨_, rfl, ?_, ?_⟩ <;>
+        simp only [catSeries, List.zipWith_cons_cons, List.zipWith_nil_right, Surm.run,
+          zip_append_eq _ _ _ _ e1, map_append_scan, scan_append_fst]
+
+/-- StorageTrapAll: the stored mass is added to the FIRST element of the trapped series of each call and the state is
+reset to `0.0`; the second call therefore adds `0.0` to its first inflow value. The split run equals the whole run
+provided `y + 0.0 = y` (true in ℝ, and in IEEE arithmetic for every `y` except `-0.0`, where `-0.0 + 0.0 = +0.0`:
+a sign-of-zero difference only, inside the "floating-point round-off" the property allows). Without this law the
+statement is not provable over an arbitrary `Num α` (no arithmetic law is available there). -/
+theorem hotstart_StorageTrapAll_of_add_zero (h0 : ∀ y : α, y + 0.0 = y) : HotStart (StorageTrapAll.model (α := α)) := by
+  intro p a b st n₁ n₂ o₁ o₂ hl ha hb h₁ h₂
+  unfold StorageTrapAll.model at h₁ h₂ ⊢
+  simp only at h₁ h₂ ⊢
+  match p, a, st, h₁ with
+  | [], [a1, a2, a3, a4], [s], h₁ =>
+    match b, hl, h₂ with
+    | [b1, b2, b3, b4], _, h₂ =>
+      cases a1 with
+      | nil =>
+        simp only [StorageTrapAll.trapped, Except.ok.injEq] at h₁
+        subst h₁
+        simp only [catSeries, List.zipWith_cons_cons, List.zipWith_nil_right, List.nil_append]
+        simp only at h₂
+        cases b1 with
+        | nil =>
+          simp only [StorageTrapAll.trapped, Except.ok.injEq] at h₂ ⊢
+          subst h₂
+          exact ⟨_, rfl, rfl, rfl⟩
+        | cons y ys =>
+          simp only [StorageTrapAll.trapped, Except.ok.injEq] at h₂ ⊢
+          subst h₂
+          exact ⟨_, rfl, rfl, rfl⟩
+      | cons x xs =>
+        simp only [StorageTrapAll.trapped, Except.ok.injEq] at h₁
+        subst h₁
+        simp only [catSeries, List.zipWith_cons_cons, List.zipWith_nil_right, List.cons_append]
+        simp only at h₂
+        cases b1 with
+        | nil =>
+          simp only [StorageTrapAll.trapped, Except.ok.injEq] at h₂ ⊢
+          subst h₂
+          refine ⟨_, rfl, ?_, rfl⟩
+          simp
+        | cons y ys =>
+          simp only [StorageTrapAll.trapped, Except.ok.injEq] at h₂ ⊢
+          subst h₂
+          refine ⟨_, rfl, ?_, rfl⟩
+          simp only [h0, List.length_cons, List.length_append, List.cons_append]
+          congr 2
+          show zeros (xs.length + (ys.length + 1) + 1) = zeros (xs.length + 1) ++ zeros (ys.length + 1)
+          rw [← zeros_add]; congr 1; omega
+
+/-- the side condition for InstreamFineSediment: the reach has no bank-full flow (lumped path, the channel store is
+passed through untouched) or the channel store handed to the second call is not negative (a negative value is read as
+"fraction of the maximum storage" at the start of EVERY call). -/
+def FineSedimentSplitOk (p _st s : List α) : Prop :=
+  (∃ bff rest, p = bff :: rest ∧ bff ≤ (1e-8 : α)) ∨ (∃ csf tsm, s = [csf, tsm] ∧ ¬ csf < (0.0 : α))
+
+/-- InstreamFineSediment. Full statement (FALSE for the model and the code as they are):
+`HotStart (InstreamFineSediment.model)`. What is missing: the kernel re-interprets a NEGATIVE channel store as
+"fraction of the maximum storage" at the start of every call (`if channelStoreFine < 0.0 {…}` precedes the loop), so a
+negative store handed over at a split point would be converted while the uninterrupted run keeps it. Proved: hot-start
+continuity for every split at which that conversion does not fire (`FineSedimentSplitOk`). For physically meaningful
+parameters (maximum storage ≥ 0) the store never becomes negative after the first conversion — see
+`fineSediment_store_nonneg` below (ℝ). -/
+theorem hotstart_InstreamFineSediment_partial :
+    HotStartWhen (InstreamFineSediment.model (α := α)) FineSedimentSplitOk := by
+  intro p a b st n₁ n₂ o₁ o₂ hl ha hb h₁ h₂ hc
+  unfold InstreamFineSediment.model at h₁ h₂ ⊢
+  simp only at h₁ h₂ ⊢
+  match p, a, st, h₁ with
+  | [bff, vfl, fpa, lw, ll, ls, bh, pbh, sbd, mn, vs, vr, dt], [a1, a2, a3, a4, a5], [csf, tsm], h₁ =>
+    simp only [Except.ok.injEq] at h₁
+    subst h₁
+    match b, hl, h₂ with
+    | [b1, b2, b3, b4, b5], _, h₂ =>
+      simp only [Except.ok.injEq] at h₂
+      subst h₂
+      have e1 : a1.length = a2.length := ha.eq (by simp) (by simp)
+      have e2 : a1.length = a3.length := ha.eq (by simp) (by simp)
+      have e3 : a1.length = a4.length := ha.eq (by simp) (by simp)
+      have e4 : a1.length = a5.length := ha.eq (by simp) (by simp)
+      generalize hP : (⟨bff, vfl, fpa, lw, ll, ls, bh, pbh, sbd, mn, vs, vr, dt⟩ : InstreamFineSediment.Params α) = P at hc ⊢
+      generalize hf : InstreamFineSediment.run P (csf, tsm) (zip5 a1 a2 a3 a4 a5) = f at hc ⊢
+      have hstart : InstreamFineSediment.start P (f.1.1, f.1.2) = f.1 := by
+        obtain ⟨⟨f1, f2⟩, f3⟩ := f
+        unfold InstreamFineSediment.start InstreamFineSediment.initStore
+        rcases hc with ⟨bff', rest, hp, hle⟩ | ⟨c, t, hs, hneg⟩
+        · have : InstreamFineSediment.lumped P = true := by
+            subst hP
+            simp only [List.cons.injEq] at hp
+            obtain ⟨rfl, _⟩ := hp
+            simpa [InstreamFineSediment.lumped] using hle
+          simp [this]
+        · simp only [List.cons.injEq, and_true] at hs
+          obtain ⟨h1, h2⟩ := hs
+          subst h1
+          simp only [if_neg hneg]
+          split <;> rfl
+      have hcat : InstreamFineSediment.run P (csf, tsm) (zip5 a1 a2 a3 a4 a5 ++ zip5 b1 b2 b3 b4 b5) =
+          ((InstreamFineSediment.run P (f.1.1, f.1.2) (zip5 b1 b2 b3 b4 b5)).1,
+            f.2 ++ (InstreamFineSediment.run P (f.1.1, f.1.2) (zip5 b1 b2 b3 b4 b5)).2) := by
+        unfold InstreamFineSediment.run at hf ⊢
+        rw [scan_append, hstart, hf]
+      clear h₁ h₂
+      subst hP
+      refine ⟨_, rfl, ?_, ?_⟩ <;>
+        simp only [catSeries, List.zipWith_cons_cons, List.zipWith_nil_right,
+          zip5_append _ _ _ _ _ _ _ _ _ _ e1 e2 e3 e4, hcat, List.map_append]
 
 end OW.Props.C06
